@@ -100,6 +100,21 @@ def check_case(seg, rect, as_tuples=False):
     if accept is not True and accept is not False:
         out.append(("flag", f"{desc} returned accept flag {accept!r}"))
     if not accept:
+        # "rejection only when no part of the segment is inside by more than the tolerance":
+        # some point of it lying deeper inside than the tolerance settles that - also for a
+        # segment of zero length (a dot well inside the page)
+        deep = None
+        if exact is not None:
+            for par in (exact[0], exact[1], (exact[0] + exact[1]) / 2):
+                pnt = point_at(fseg, par)
+                depth = min(pnt[0] - frect[0][0], frect[1][0] - pnt[0],
+                            pnt[1] - frect[0][1], frect[1][1] - pnt[1])
+                if depth > 0 and depth * depth > tol2:
+                    deep = (pnt, depth)
+                    break
+        if deep is not None and inside_len2 <= tol2:
+            out.append(("reject", f"{desc} rejected, but the point {tuple(map(float, deep[0]))} of "
+                        f"the segment lies {float(deep[1])} inside the rectangle"))
         if exact is not None and inside_len2 > tol2:
             out.append(("reject", f"{desc} rejected, but the part of the segment for t in "
                         f"[{exact[0]}, {exact[1]}] lies inside the rectangle"))
